@@ -3,6 +3,7 @@ static Sequence.sequences_split_bars (snapshots of every input; oracle signature
 from vmon import gen
 from vmon.checks.common import obs, fail, random_prefix, apply_prefix
 
+REJECTED = "prefixes"    # worker: every thirteenth case starts with a call the library rejects (common.apply_prefix "rejected")
 SCALE = True   # worker: every 41st case is blown up by scale_case below
 PROP = "C09"
 MONITORS = ["bars"]
